@@ -500,7 +500,8 @@ def run_shard(spec, tier, seed, scratch):
                         t2 = t.clone()
                         c1 = comp_of(os.path.basename(nodes[k1]))
                         t2.files[nodes[k1]] = compress(decompress(t2.files[nodes[k1]], c1) + b'IGNORE zz-second-break\n', c1)
-                        case2 = dict(case, tree=t2.to_json(), k=k1, broken=nodes[k1], dc=False)
+                        case2 = dict(case, tree=t2.to_json(), k=k1, broken=nodes[k1], dc=False,
+                                     broken_any=[nodes[k1]] + [b for b in broken_any if b == deepest])
                         vs2 = check_case(case2, scratch, stats)
                         stats.case((spec, mh, sib, kind, j, k, 'second_break', k1), nontrivial=True)
                         stats.counters['cases_two_breaks'] += 1
